@@ -523,7 +523,7 @@ pub fn fire_rete_ul_rules_with_agenda(
         }
 
         // Sort agenda by priority (descending)
-        agenda.sort_by_key(|&i| -rules[i].priority);
+        agenda.sort_by_key(|&i| std::cmp::Reverse(rules[i].priority));
 
         // Fire all rules in agenda
         for &i in &agenda {
@@ -1127,7 +1127,7 @@ impl TypedReteUlEngine {
                 .collect();
 
             // Sort by priority (descending)
-            agenda.sort_by_key(|&i| -self.rules[i].priority);
+            agenda.sort_by_key(|&i| std::cmp::Reverse(self.rules[i].priority));
 
             for &i in &agenda {
                 let rule = &mut self.rules[i];
